@@ -61,6 +61,12 @@ CLAIMED = {
          "_distance.cpp is an executable model (exact rational comparisons) proved equal to the min-plus specification on a finite "
          "sweep and compared with it on every generated line; results are compared exactly with brute force and with the model",
          "Rocq proof + finite sweep + differential correspondence (exact integers)"),
+ "C16": ("proof", "Coq theorems on element functions RE-TRANSLATED from thresholding.py on every run (Python ast -> Gallina over Q, "
+         "np.choose orientation preserved): gbernsen follows the Bernsen rule in both contrast regimes; soft_threshold shrinks by "
+         "tval and zeroes small magnitudes. The first-maximiser search returns a maximiser of the exact between-class variance; the "
+         "histogram is permutation invariant. otsu (running class means) and rc are exact-rational models of the code compared with "
+         "the rational specification and with the fresh build; implementation outputs are judged against the exact rational optimum",
+         "Rocq proof + Python-ast translator + differential correspondence (exact rationals)"),
 }
 NOT_YET = "check not built yet in this round (see DESIGN.md section 8 for the plan)"
 ALL = ["C%02d" % i for i in range(1, 21)]
